@@ -334,6 +334,12 @@ pub fn worker<P: Prop>(
                             .entry(k)
                             .or_insert((0, format!("run {}: {}", idx, v.message)));
                         e.0 += 1;
+                    } else if std::env::var("DSIM_COUNT_ONLY").is_ok() {
+                        // measurement aid (never used by the registered checks): count
+                        // violating runs instead of stopping at the first one
+                        let v = rep.violation.as_ref().unwrap();
+                        sum.probes
+                            .hit(&format!("violating_runs_{}", v.invariant));
                     } else {
                         let orig = mk_replay::<P>(verif_seed, idx, ent, thorough, false, &wl, &rep);
                         let inv = rep.violation.as_ref().unwrap().invariant.clone();
